@@ -1,6 +1,9 @@
 import BlobfinderModel.Model.Proto
 import BlobfinderModel.Model.Lattice
 import BlobfinderModel.Model.Fastmatch
+import BlobfinderModel.Model.Fullmatch
+import BlobfinderModel.Model.Udf
+import BlobfinderModel.Gen.Patterns
 /-
 Model driver for the lattice algebra (exact rational arithmetic).
 -/
@@ -101,6 +104,35 @@ def opRound (ws : List String) : String :=
   | some l => " ".intercalate (l.map fun x => toString (roundHalfEven x))
   | none => "bad-op"
 
+def selOf (bits : String) : Sel := fun k => (bits.toList.getD k '0') == '1'
+
+def bitsOf (n : Nat) (s : Sel) : String := String.mk ((List.range n).map fun k => if s k then '1' else '0')
+
+/-- `fullmatch n min_match methods <filt bits> <zero bits> <answer>*` (answer = `N` or a bit string) -/
+def opFullmatch (ws : List String) : String :=
+  match ws with
+  | n :: mm :: methods :: filt :: zero :: answers =>
+    match n.toNat?, mm.toInt?, methods.toNat? with
+    | some n, some mm, some methods =>
+      let ans := answers.map fun a => if a = "N" then none else some (selOf a)
+      let r := fullMatch n mm (selOf filt) (selOf zero) methods ans
+      s!"{r.ms.length} {bitsOf n r.unmatched} {bitsOf n r.weak} " ++ " ".intercalate (r.ms.map (bitsOf n))
+    | _, _, _ => "bad-op"
+  | _ => "bad-op"
+
+def opUdf (ws : List String) : String :=
+  match ws with
+  | ["peak", p, zs] => match parseRat? p, parseRat? zs with
+    | some p, some zs => toString (udfPeak p zs)
+    | _, _ => "bad-op"
+  | ["sparseoffset", peak, d, c] => match peak.toInt?, d.toInt?, c.toInt? with
+    | some peak, some d, some c => s!"{Gen.sparse_offset peak d c} {Gen.sparse_size c} {Gen.mask_center (Gen.sparse_size c)}"
+    | _, _, _ => "bad-op"
+  | ["dispatch", corr, mt] =>
+    (match Gen.dispatch_correlation corr with | some c => c | none => "ValueError") ++ " " ++
+    (match Gen.dispatch_match mt with | some c => c | none => "ValueError")
+  | _ => "bad-op"
+
 def step (line : String) : String :=
   match words line with
   | "coords" :: ws => opCoords ws
@@ -111,6 +143,8 @@ def step (line : String) : String :=
   | "layout" :: ws => opLayout ws
   | "fastmatch" :: ws => opFastmatch ws
   | "round" :: ws => opRound ws
+  | "fullmatch" :: ws => opFullmatch ws
+  | "udf" :: ws => opUdf ws
   | _ => "bad-op"
 
 def main : IO Unit := run step
